@@ -80,6 +80,8 @@ func run(c *checks.Ctx) (code int) {
 		err = checks.RunC09(c)
 	case "C03":
 		err = checks.RunC03(c)
+	case "C16":
+		err = checks.RunC16(c)
 	default:
 		fmt.Println("unknown property", c.Prop)
 		return checks.ExitHarness
